@@ -18,6 +18,9 @@ def run(ctx):
     ctx.rule("R11-2", "the spliced output never flows back into should_do_dollar_command_extension / the `$(` regex")
     ctx.rule("R11-3", "the `$(` rewrite loop has no cycle path that leaves the line unchanged (unparsable inner command)")
     ctx.rule("R11-4", "each substitution site calls run_pipeline(.., capture = true, ..) and gives the terminal back")
+    ctx.rule("R11-6", "the rewritten word keeps the text around the substitution: the new line is produced by "
+                      "Regex::replace* on the old line (which keeps unmatched text), not assembled from capture groups of "
+                      "an unanchored pattern")
     ctx.rule("R11-5", "between stdout and the splice only trailing newlines are removed")
     for crate in ctx.crates:
         scanners = taint.dollar_scanners(crate)
@@ -33,6 +36,7 @@ def run(ctx):
             trim_rule(ctx, crate, b)
         ctx.floor("R11-4", crate, "substitution run_pipeline sites", nsites, 3)
         stutter_rule(ctx, crate)
+        surrounding_rule(ctx, crate)
     # terminal give-back at these sites: reuse R07-1 (relabelled)
     before = len(ctx.obligations)
     for crate in ctx.crates:
@@ -142,3 +146,45 @@ def stutter_rule(ctx, crate):
         ctx.ob("R11-3", b.path, "the `$(` rewrite loop changes the line on every cycle path", ok,
                key="R11-3|%s|stutter" % b.path, where=b.loc(h), crate=crate.kind, detail=detail)
     ctx.require(found, "R11-3", "R11-3|%s|loop" % b.path, "no rewrite loop found", b.path)
+
+
+def surrounding_rule(ctx, crate):
+    b = crate.fn(SITES[0])
+    if b is None:
+        return
+    # the variable the rewrite loop scans and reassigns
+    loopvar = None
+    for h, blocks in b.loops().items():
+        for x in blocks:
+            for tgt, atom, val in b.switch_edges(x):
+                if atom[0] == "call" and last_seg(atom[1]) == "should_do_dollar_command_extension" and tgt not in blocks:
+                    for s_ in mir.subexprs(atom):
+                        if s_[0] == "var":
+                            loopvar = s_
+    if not ctx.require(loopvar is not None, "R11-6", "R11-6|%s|loopvar" % b.path, "rewrite loop variable not found", b.path):
+        return
+    n = 0
+    for bi, si in b.defs.get(loopvar[1], []):
+        e = b.def_expr(bi, si)
+        if not any(bi in blocks for h, blocks in b.loops().items()):
+            continue       # the initial `line = token.to_string()`
+        if not flow.backward(b, e, taint.source_pred(crate, taint.is_cmd_output)):
+            continue
+        via_replace = flow.backward(b, e, lambda z: z[0] == "call" and last_seg(z[1]) in ("replace", "replacen", "replace_all")
+                                    and "egex" in z[1] and len(z[2]) >= 2 and
+                                    flow.backward(b, z[2][1], lambda y: y[0] == "var" and y[1] == loopvar[1]) is not None)
+        ok = via_replace is not None
+        if not ok:
+            # assembled by hand: acceptable only from an anchored pattern
+            lit = None
+            hit = flow.backward(b, e, lambda z: z[0] == "call" and last_seg(z[1]) == "new" and "egex" in z[1] and z[2]
+                                and mir.const_str(z[2][0]) is not None)
+            if hit is not None:
+                lit = mir.const_str(hit[2][0])
+            ok = lit is not None and lit.startswith("^") and lit.endswith("$")
+        ctx.ob("R11-6", b.path, "text around the substituted `$(...)` is preserved in the rewritten word", ok,
+               key="R11-6|%s|rewrite#%d" % (b.path, n), where=b.loc(bi, si), crate=crate.kind,
+               detail=None if ok else "the new word is assembled from capture groups of an unanchored pattern: text outside "
+                                      "the groups (before an earlier `$`, after a newline) is dropped")
+        n += 1
+    ctx.require(n >= 1, "R11-6", "R11-6|%s|anchor" % b.path, "no reassignment of the rewritten word from command output found", b.path)
